@@ -967,9 +967,13 @@ class Env:
         f = self.fault("sleeper", j)
         if f is not None:
             raise f
-        if over:
+        if over > 0:
             self.fired("slow_sleep")
-        return cs, j, sec_to_us(s) + over, over
+        elif over < 0:
+            # a sleeper that returns EARLY (a caller-supplied no-op / test sleeper, cf. redress.testing's instant
+            # retries): less time passes than was asked for, never negative time
+            self.fired("early_sleep")
+        return cs, j, max(0, sec_to_us(s) + over), over
 
     def _sleep_sync(self, which, s):
         cs, j, us, over = self._sleep_pre(which, s)
